@@ -147,4 +147,30 @@ def run(R, replay=None):
     if r["exception"] or r["exit"] != 2:
         R.violations.append({"what": "a test ID both in tests and skips of the YAML config is not rejected with exit status 2",
                              "input": "tests: [B101]\nskips: [B101]", "observed": r["exception"] or r["exit"], "signature": None})
+    # ---- (4) the same selection as a named profile of a config file and through -t/-s
+    import json
+    import yaml
+    prog = os.path.join(d, "sel.py")
+    open(prog, "w").write("import pickle, subprocess\nimport telnetlib\npickle.loads(x)\nsubprocess.Popen(c, shell=True)\nassert x\nexec(y)\n"
+                          "import hashlib\nhashlib.md5(z)\n")
+    res = lambda r: None if r["exception"] or not r["stdout"].strip().startswith("{") else sorted(
+        (x["test_id"], x["line_number"]) for x in json.loads(r["stdout"])["results"])
+    sels = [(["B101", "B301"], []), (["B001", "B101"], []), ([], ["B101"]), ([], ["B001"]), (["B403", "B602"], []), ([], ["B404", "B602"]),
+            (["B001"], ["B404"]), (["B324", "B401"], ["B101"])]
+    for inc, exc in sels:
+        prof = {}
+        if inc:
+            prof["include"] = inc
+        if exc:
+            prof["exclude"] = exc
+        cf = os.path.join(d, "prof.yaml")
+        yaml.safe_dump({"profiles": {"mine": prof}}, open(cf, "w"))
+        a = climain.run_main(["-q", "-f", "json", "-c", cf, "-p", "mine", prog])
+        b = climain.run_main(["-q", "-f", "json"] + (["-t", ",".join(inc)] if inc else []) + (["-s", ",".join(exc)] if exc else []) + [prog])
+        R.case(("profile", tuple(inc), tuple(exc)), nontrivial=True, sample={"include": inc, "exclude": exc, "profile": res(a), "cli": res(b)})
+        R.count("selection:profile")
+        if a["exception"] or b["exception"] or res(a) != res(b):
+            R.violations.append({"what": "the selection include=%s exclude=%s gives other findings as a config profile than through -t/-s" % (inc, exc),
+                                 "input": {"include": inc, "exclude": exc}, "observed": {"profile": res(a), "cli": res(b), "exc": a["exception"] or b["exception"]},
+                                 "signature": None})
     R.disagreements_checked = len(cases)
